@@ -14,7 +14,9 @@ from functools import lru_cache
 # the largest primes below sqrt(2^31) (products of two residues fit TLC's 32-bit ints)
 PRIMES = [46337, 46327, 46309, 46307, 46301, 46279, 46273, 46271, 46261, 46237,
           46229, 46219, 46199, 46187, 46183, 46181, 46171, 46153, 46147, 46141,
-          46133, 46103, 46099, 46093]
+          46133, 46103, 46099, 46093, 46091, 46073, 46061, 46051, 46049, 46027,
+          46021, 45989, 45979, 45971, 45959, 45953, 45949, 45943, 45893, 45887,
+          45869, 45863, 45853, 45841, 45833, 45827, 45823, 45821]
 
 HALF_LN_2PI = 0.5 * math.log(2.0 * math.pi)
 MARGIN_BITS = 16          # |n|, d must be below sqrt(M/2) / 2^MARGIN_BITS
